@@ -56,6 +56,7 @@ impl Oracle {
         }
         let block_end = ((d / BLOCK) + 1) * BLOCK;
         ctx.stats.probe("pairs_compared");
+        ctx.stats.state(crate::choices::mix((d / BLOCK) as u64, crate::choices::mix((n / BLOCK) as u64, (d % BLOCK / 16) as u64)));
         if d >= BLOCK {
             ctx.stats.probe("pairs_diverging_in_a_later_block");
         }
@@ -182,7 +183,7 @@ impl Property for C03 {
         "A (STAR reporting) with a wire observer"
     }
     fn rule(&self) -> &'static str {
-        "one run = a world-A history in which the clients of a group attach different associated data (shared prefix of 0/10/200 bytes + unique suffix; measurement lengths chosen so the first difference falls in cipher block 0, 1 or 2); the observer scans every sent report for the aux in the clear, tries every 16-byte window (as key) and 32-byte window (as key seed) outside the ciphertext chunk plus drawn windows inside it against the payload, and for every pair of reports of a group tests ct1^ct2 == pt1^pt2 from the first differing payload byte on. non-trivial = at least one pair was compared; distinct = distinct event digests"
+        "one run = a world-A history in which the clients of a group attach different associated data (shared prefix of 0/10/200 bytes + unique suffix; measurement lengths chosen so the first difference falls in cipher block 0, 1 or 2); the observer scans every sent report for the aux in the clear, tries every 16-byte window (as key) and 32-byte window (as key seed) outside the ciphertext chunk plus drawn windows inside it against the payload, and for every pair of reports of a group tests ct1^ct2 == pt1^pt2 from the first differing payload byte on. non-trivial = at least one pair was compared; distinct = distinct event digests; states = (cipher block of the first difference, payload length in blocks, offset class within the block) cells"
     }
     fn runs(&self, thorough: bool) -> u64 {
         if thorough { 60_000 } else { 1_500 }
